@@ -722,6 +722,9 @@ class Interp:
         rec(0, fr)
 
     def e_ListComp(self, node, frame):
+        hook = self._comp_model(node, frame)
+        if hook is not None:
+            return hook
         sym = self._symbolic_comp(node, frame)
         if sym is not None:
             return sym
@@ -730,6 +733,9 @@ class Interp:
         return PList(out)
 
     def e_GeneratorExp(self, node, frame, lazy_ok=False):
+        hook = self._comp_model(node, frame)
+        if hook is not None:
+            return hook
         sym = self._symbolic_comp(node, frame)
         if sym is not None:
             return sym
@@ -1058,15 +1064,21 @@ class Interp:
                               f"contract: for ... in {ast.unparse(node.iter)}")
         vc = self.vc
         lname = f"loop{frame_loop_ordinal(frame, node)}"
+        inst = getattr(si, "instantiate", None)
+        if inst is not None:
+            inst(vc, 0)
         for n, f in lc.iter_spec(vc, frame, si):
             vc.check(f"loop.iter#{lname}.{n}", f)
         for n, f in lc.invariant(vc, frame, 0, si):
-            vc.check(f"inv.init#{lname}.{n}", f)
+            if not n.startswith("@instance"):
+                vc.check(f"inv.init#{lname}.{n}", f)
         branch = vc.choose(2, "loop")
         if branch == 0:
             # an arbitrary iteration
             k = vc.fresh_int("k")
             vc.assume(z3.And(k >= 0, k < term(si.length())))
+            if inst is not None:
+                inst(vc, k)
             lc.havoc(vc, frame, k, si)
             for _n, f in lc.invariant(vc, frame, k, si):
                 vc.assume(f)
@@ -1083,7 +1095,10 @@ class Interp:
                     vc.check(f"inv.break#{lname}.{n}", f)
                 return
             for n, f in lc.invariant(vc, frame, k + 1, si):
-                vc.check(f"inv.keep#{lname}.{n}", f)
+                # "@instance": a further instantiation point of a clause that
+                # is proved for an arbitrary element; only ever assumed
+                if not n.startswith("@instance"):
+                    vc.check(f"inv.keep#{lname}.{n}", f)
             raise PathEnd()
         else:
             lc.havoc(vc, frame, si.length(), si)
